@@ -50,6 +50,15 @@ def container(x, kind):
     raise ValueError(kind)
 
 
+LABELS = {
+    "str": lambda i: "n%d" % i,
+    "tuple": lambda i: (i // 2, i % 2),          # grid-style labels: a single node *is* a tuple
+    "frozenset": lambda i: frozenset([i, "x"]),
+    "float": lambda i: i + 0.5,
+    "bool_int": lambda i: [False, True, 2, 3][i],   # node 0 is falsy (False == 0), node 1 is True == 1
+}
+
+
 def exp_pol(orc, rate, frame):
     return 1.0 + 2.0 ** -(10 + orc.n_exp), None
 
@@ -114,6 +123,10 @@ def run_spec(spec, props=("C05",)):
 
     if kind == "containers":
         I0 = list(spec["I0"]); R0 = list(spec.get("R0", []))
+        if spec.get("labels"):
+            mp = {i: LABELS[spec["labels"]](i) for i in range(n)}
+            G = nx.relabel_nodes(G, mp)
+            nodes = [mp[i] for i in range(n)]; I0 = [mp[i] for i in I0]; R0 = [mp[i] for i in R0]
         ic = spec["icont"]; rc = spec.get("rcont", "list")
         I0c = container(I0, ic)
         R0c = container(R0, rc) if R0 else None
@@ -121,7 +134,7 @@ def run_spec(spec, props=("C05",)):
         r = run_once(sim, fn, (), exp=exp_pol)
         A.execs = 1; A.evals = 1
         A.states.add(hsh(spec)); A.trans.add(hsh(spec))
-        cls = "containers:%s" % ic + ("+R0" if R0 else "") + ("+positional" if spec.get("style") == "positional" else "")
+        cls = "containers:%s" % ic + ("+R0" if R0 else "") + ("+positional" if spec.get("style") == "positional" else "") + (("+labels:" + spec["labels"]) if spec.get("labels") else "")
         if r.exc is not None:
             A.add(V("C05", name, cls, "exception", "%s(initial_infecteds=%r%s) raised %r" % (name, I0c, ", initial_recovereds=%r" % (R0c,) if R0 else "", r.exc)))
             return A.result(props)
@@ -305,6 +318,19 @@ def specs(tier):
                     continue
                 for full in (True, False):
                     out.append(dict(kind="rho", fn=name, n=n, edges=es, rho=rho, tmax=3 if model == "SIS" else "inf", full=full))
+        # node label types (strings, tuples as in grid graphs, frozensets, floats, False/True/2): a single node or a collection
+        for lab in LABELS:
+            for n, es in [gr.NAMED["P3"], (4, [(0, 1), (1, 2)])]:
+                for I0 in ((0,), (1,), (0, 2)):
+                    rest = [v for v in range(n) if v not in I0]
+                    for R0 in [()] + ([(rest[-1],)] if hasR0 else []):
+                        conts = ["node", "list", "tuple", "set", "keys"] if len(I0) == 1 else ["list", "tuple", "set", "keys"]
+                        if lab == "str":
+                            conts.append("array")
+                        for ic in conts:
+                            for full in (False, True):
+                                out.append(dict(kind="containers", fn=name, n=n, edges=es, I0=list(I0), R0=list(R0), icont=ic, rcont="list", style="kw",
+                                                tmin=0, tmax=3 if model == "SIS" else "inf", full=full, labels=lab))
         if name in ("fast_nonMarkov_SIS", "fast_nonMarkov_SIR"):
             for n_, es_ in [gr.NAMED[k] for k in ("P2", "P3", "K3", "S4")]:
                 for I0 in gr.subsets(range(n_), 1, 2):
